@@ -525,7 +525,7 @@ func init() {
 		Assumptions: []string{"negative option values are outside the configuration domain", "quick tier varies one size-limit family at a time plus the all-equal and all-small corners; thorough takes the full product"},
 		Run:         run,
 		Replay:      replayFn,
-		Budget:      map[string]time.Duration{"quick": 4 * time.Minute, "thorough": 25 * time.Minute},
+		Budget:      map[string]time.Duration{"quick": 8 * time.Minute, "thorough": 30 * time.Minute},
 		Guards: func(r *mc.Result, tier string) []string {
 			var f []string
 			for _, fact := range []string{"step_limit_reached", "resume_limit_reached", "msg_created", "msg_text_cut_at_limit", "name_changed", "field_changed", "result_changed"} {
